@@ -251,8 +251,11 @@ class Ctx:
         cov.update(self.extra)
         ev = dict(property_id=self.pid, tier=self.tier, seed=self.seed, level=self.level, coverage=cov,
                   assumptions=self.assumptions, wall_s=round(wall, 2), violations=len(self.violations))
-        os.makedirs(os.path.join(VERIF, "evidence"), exist_ok=True)
-        with open(os.path.join(VERIF, "evidence", self.pid + ".json"), "w") as f:
+        # evidence/ describes runs against /repo itself; a run against another tree (VERIF_REPO: seeded
+        # changes, proposed fixes) writes its evidence next to the scratch data instead
+        evdir = os.path.join(VERIF, "evidence") if os.path.abspath(REPO) == "/repo" else os.path.join(VERIF, ".work", "evidence-other-tree")
+        os.makedirs(evdir, exist_ok=True)
+        with open(os.path.join(evdir, self.pid + ".json"), "w") as f:
             json.dump(ev, f, indent=1, default=str)
         for fid, what in sorted(self.known_seen.items()):
             log("KNOWN-FINDING: property=%s %s %s" % (self.pid, fid, what))
